@@ -678,32 +678,32 @@ func (ck *checker) runList(m *auth.Manager, list []entry, a *acc, withVerifiers 
 								}
 								switch {
 								case want == yes && !admitted:
-									ck.r.Violation("rejected-but-entitled:"+whyString(why), fmt.Sprintf(
+									violation(ck.r, "rejected-but-entitled:"+whyString(why), fmt.Sprintf(
 										"users=%s: %s %q from %s as (%q,%q) verifier=%s rejected, a configured entry admits it [%s]",
 										t.usersJSON(list), act, path, t.ips[ipI].name, s.user, s.pass, verNames[ver], whyString(why)), replay())
 								case want == no && admitted:
-									ck.r.Violation("admitted-without-entry:"+whyString(why), fmt.Sprintf(
+									violation(ck.r, "admitted-without-entry:"+whyString(why), fmt.Sprintf(
 										"users=%s: %s %q from %s as (%q,%q) verifier=%s admitted, no configured entry admits it [%s]",
 										t.usersJSON(list), act, path, t.ips[ipI].name, s.user, s.pass, verNames[ver], whyString(why)), replay())
 								}
 								if admitted {
 									if user != s.user {
-										ck.r.Violation("reported-user", fmt.Sprintf(
+										violation(ck.r, "reported-user", fmt.Sprintf(
 											"users=%s: admitted request of user %q reports user %q", t.usersJSON(list), s.user, user), replay())
 									}
 								} else {
 									noneSupplied := s.user == "" && s.pass == ""
 									switch {
 									case err.AskCredentials && !(ask == 1 && noneSupplied):
-										ck.r.Violation(fmt.Sprintf("ask-unwarranted:ask=%d,user=%v,pass=%v", ask, s.user != "", s.pass != ""),
+										violation(ck.r, fmt.Sprintf("ask-unwarranted:ask=%d,user=%v,pass=%v", ask, s.user != "", s.pass != ""),
 											fmt.Sprintf("users=%s: rejected request (user %q pass %q, asking allowed=%v) asks for credentials",
 												t.usersJSON(list), s.user, s.pass, ask == 1), replay())
 									case !err.AskCredentials && ask == 1 && noneSupplied && ex.token == "":
-										ck.r.Violation("ask-missing", fmt.Sprintf(
+										violation(ck.r, "ask-missing", fmt.Sprintf(
 											"users=%s: rejected request without credentials, asking allowed, does not ask", t.usersJSON(list)), replay())
 									}
 									if err.Wrapped == nil {
-										ck.r.Violation("nil-wrapped-error", "rejection without a cause", replay())
+										violation(ck.r, "nil-wrapped-error", "rejection without a cause", replay())
 									}
 								}
 								// the verifier must be consulted with configured (user, pass) pairs of the list only
@@ -716,7 +716,7 @@ func (ck *checker) runList(m *auth.Manager, list []entry, a *acc, withVerifiers 
 										}
 									}
 									if !found {
-										ck.r.Violation("verifier-args", fmt.Sprintf(
+										violation(ck.r, "verifier-args", fmt.Sprintf(
 											"users=%s: verifier consulted with (%q,%q) which is no configured entry", t.usersJSON(list), c.user, c.pass), replay())
 									}
 								}
@@ -754,6 +754,7 @@ func (t *tables) plainOnly(list []entry) bool {
 
 func main() {
 	r := vcommon.Start("C01", "exploration")
+	loadReplay(r)
 	debug.SetGCPercent(400) // the hot loop produces only short-lived garbage (rejection errors)
 	if p := os.Getenv("VERIF_CPUPROFILE"); p != "" {
 		f, _ := os.Create(p)
@@ -974,6 +975,7 @@ func main() {
 		"exhaustive inside the listed alphabets only",
 	}
 	pprof.StopCPUProfile()
+	replaySummary()
 	r.Finish()
 }
 
@@ -1003,7 +1005,7 @@ func (ck *checker) swap(m *auth.Manager, l1, l2 []entry, a *acc) {
 						return (w == yes && e != nil) || (w == no && e == nil)
 					}
 					if bad(w1, e1) || bad(w2, e2) {
-						ck.r.Violation("hot-swap-stale", fmt.Sprintf(
+						violation(ck.r, "hot-swap-stale", fmt.Sprintf(
 							"list %s then ReloadInternalUsers(%s): %s %q from %s as (%q,%q): admitted before=%v after=%v, expected %v/%v",
 							t.usersJSON(l1), t.usersJSON(l2), act, path, t.ips[ipI].name, s.user, s.pass, e1 == nil, e2 == nil, w1 == yes, w2 == yes),
 							map[string]any{"users1": json.RawMessage(t.usersJSON(l1)), "users2": json.RawMessage(t.usersJSON(l2)),
